@@ -28,6 +28,7 @@ def c3(ctx):
 
 
 def c5(ctx):
+    convert.global_tables_immutable(ctx)
     convert.purity(ctx)
     convert.warps_first(ctx)
     convert.ssc_target_tables(ctx)
